@@ -62,9 +62,10 @@ def run(ctx):
     breaks = set(''.join(SPLITLINES))
     lits = [n for n in ast.walk(isl.node) if isinstance(n, ast.Constant) and isinstance(n.value, str) and n.value
             and set(n.value) & breaks and not (isl.node.body and isinstance(isl.node.body[0], ast.Expr) and n is isl.node.body[0].value)]
-    ctx.ob('T12.one', isl.fq, 'iter_splitlines decides everything from the pattern\'s matches; it contains no literal line-break '
-           'characters of its own (a second table would disagree with _line_ending_re)', not lits,
-           loc=loc(isl, lits[0]) if lits else isl.loc, detail=repr([n.value for n in lits][:3]))
+    have = set(''.join(n.value for n in lits)) & breaks
+    ctx.ob('T12.one', isl.fq, 'iter_splitlines decides from the pattern\'s matches; if it names line-break characters itself, it names '
+           'all of them (a partial second table disagrees with _line_ending_re)', not lits or have == breaks,
+           loc=loc(isl, lits[0]) if lits else isl.loc, detail='literal breaks %r lack %r' % (sorted(have), sorted(breaks - have)))
     ind = prog.func('strutils.indent')
     calls = [n for n in ast.walk(ind.node) if isinstance(n, ast.Call) and call_name(n) == 'iter_splitlines']
     other = [n for n in ast.walk(ind.node) if isinstance(n, ast.Call) and isinstance(n.func, ast.Attribute)
